@@ -41,6 +41,12 @@ CHECKS = {
         technique="relational oracle on executions: defining conditions recomputed independently at every returned state; fault injection into the trial-temperature ladder",
         ref="DESIGN.md 2/C06",
     ),
+    "C07": dict(
+        text="Runtime monitoring of State::stability_analysis / is_stable: every returned trial phase has a strictly negative tangent-plane distance recomputed in the harness from ln phi and mole fractions, at the temperature and pressure of the analysed state; for binary PC-SAFT hydrocarbon pairs (T_c ratio < 1.8, T in [0.6,0.95] T_c,low, random compositions): feeds at 2/50/98 % between dew and bubble pressure (every density root) are reported unstable and tp_flash splits them instead of NoPhaseSplit, feeds 2 % outside the envelope and the phases of converged bubble/dew calculations are reported stable; pure fluids of the shipped collections: states outside the binodal stable, metastable states between binodal and spinodal unstable. Random zoo mixtures contribute trial-phase checks and counted verdicts. Hook events prove that the Newton branch and the Murray regularisation were reached.",
+        note="Verdicts on phases that are themselves at equilibrium are judged only beyond the solver tolerance band (|tpd| > 1e-6) and above 1e-5 reduced pressure, where fugacity coefficients are resolvable.",
+        technique="relational oracle on executions (independent tangent-plane distance) + metamorphic interior/exterior feeds derived from converged envelopes + hook-event coverage gate",
+        ref="DESIGN.md 2/C07",
+    ),
     "C08": dict(
         text="Differential monitoring of pairs of code paths for the same model on random states: functional vs EoS (PC-SAFT x 3 FMT versions, pure-optimised and mixture paths, gc-PC-SAFT, PeTS, SAFT-VRQ Mie; A, p, S, mu, dp/dV, dp/dT, dS/dT, dmu/dN), FMT vs harness BMCSL closed form, enum and ideal-gas wrappers vs bare models, ePC-SAFT without ions vs PC-SAFT, SAFT-VRQ Mie FH0 vs SAFT-VR Mie monomers, analytic vs Newton association at all dual orders, homosegmented GC vs hand-combined record, PR vs textbook closed form in SI. Recorded defects F14-F16 are reported as KNOWN-FINDING.",
         note="Pair tolerances 1e-9..1e-13 scaled by the state's residual energy scale (1e-3 for the VRQ/VR Mie pair whose hard-sphere diameters use different quadratures; relaxed at low density for functionals). Harness closed forms (BMCSL, PR, GC combining rules) are trusted.",
@@ -89,6 +95,18 @@ CHECKS = {
         note="Uses hooks DFTProfile::verif_* (feature verif). Finite-difference error bars as in C01.",
         technique="relational oracle on executions: analytic functional derivatives and linearised operator vs finite differences of the same discretised functional; adjointness as an exact discrete identity",
         ref="DESIGN.md 2/C17",
+    ),
+    "C18": dict(
+        text="Runtime monitoring of DFTProfile::solve on planar interfaces (PC-SAFT, PeTS, gc-PC-SAFT, a binary; T in [0.5,0.95] T_c) and slit/spherical/cylindrical pores with random solver chains (picard/anderson/newton, tolerances to 1e-11, log/non-log, tanh/pDGT/previous-solution starts): on every Ok the recomputed Euler-Lagrange residual is below the last stage's tolerance, densities are finite and positive, Ok only after a converged last stage (hook trace), no panic; Picard/Anderson/Newton agree on gamma, N and Omega; ChemicalPotential leaves the bulk unchanged; Moles/TotalMoles are met within the residual bound and a deterministic mini-grid of 12 constrained cases converges. Recorded defects: Anderson bulk drift F29, cylindrical-pore inconsistencies F30/F31.",
+        note="The residual is recomputed with the library's own Euler-Lagrange operator (C17 checks that operator). Family agreement restricted to T <= 0.9 T_c and boxes >= 180 A.",
+        technique="relational oracle on every converged execution + trace specification over solver-stage events + differential oracle between solver families",
+        ref="DESIGN.md 2/C18",
+    ),
+    "C19": dict(
+        text="Runtime monitoring of the Gibbs adsorption relation and implicit derivatives: pores re-solved at neighbouring chemical potential / pressure / temperature: -dOmega/dmu = N, dn_dmu / dn_dp / dn_dt vs centred differences with error bars (1e-4 Cartesian and spherical), dn_dmu symmetry for binaries, enthalpy of adsorption vs its definition, Henry limit N/p -> H and ideal-gas enthalpy of adsorption vs -T^2 dlnH/dT; planar interfaces: gamma independent of box length 60-300 A and 256-4096 points (1e-4), decreasing in T with critical exponent ~1.4, pDGT within 15 % of DFT. Cylindrical pores with attractive walls are KNOWN-FINDING F32.",
+        note="Spherical Gibbs relation judged against a first-order-in-dr model plus grid refinement; cylindrical tolerances are deliberately weak (0.1) because of F30/F32.",
+        technique="differential oracle on executions: implicit-derivative routines vs finite differences of re-solved profiles (with error bars), grid/box metamorphic relations",
+        ref="DESIGN.md 2/C19",
     ),
     "C20": dict(
         text="Runtime monitoring of entropy-scaling transport properties (all 146 loetgeringlin2018 records, random binaries, SAFT-VRQ Mie with synthetic coefficients): X = X_ref exp(ln X_reduced) (1e-13), correlation vs harness closed form, positive and finite, mixture with vanishing second component -> pure value, equal s_res/m -> equal reduced property; and of the estimator: every data-set type predicts what the wrapped library call returns in the documented unit, model-generated targets give zero relative difference and zero cost for every loss, NaN policy at failed points, Estimator::cost weight normalisation, each robust loss vs sqrt(f^2 rho(r^2/f^2)) over 5e6 residuals of both signs. Recorded defect F22 (negative thermal-conductivity reference for long chains) is KNOWN-FINDING.",
